@@ -12,7 +12,7 @@ RULE = ("every way of passing a file (str path, bytes path, os.PathLike, open 'r
         "compared with the Lean model over all argument combinations (which object is used, which path is opened in which mode, which error). "
         "Non-trivial: an operation that reads or writes the file; distinct by (format, sample, operation, way)")
 
-WAYS = ["str", "bytes", "pathlike", "openfile", "bytesio", "minimal", "kw-filename", "kw-fileobj"]
+WAYS = ["str", "bytes", "pathlike", "openfile", "rawfile", "bytesio", "minimal", "kw-filename", "kw-fileobj"]
 
 
 class PL(object):
@@ -40,6 +40,10 @@ def perform(fmt, data, op, way, tmpdir, name):
         pos, kw = (), {"filename": path}
     elif way == "openfile":
         handle = open(path, "rb+"); fobj = handle
+        pos, kw = (fobj,), {}
+    elif way == "rawfile":
+        # an unbuffered real file (io.FileIO, a RawIOBase): still the caller's object, never to be closed or wrapped away
+        handle = open(path, "rb+", buffering=0); fobj = handle
         pos, kw = (fobj,), {}
     elif way == "bytesio":
         fobj = io.BytesIO(data); fobj.name = name
